@@ -1,9 +1,20 @@
 package props
 
-import "pgregory.net/rapid"
+import (
+	"pgregory.net/rapid"
+	"verifharness/pgen"
+)
 
 // genProgramForMutation returns a side-effect-free program whose mutants are
 // safe to execute (only echo).
 func genProgramForMutation(rt *rapid.T) string {
-	return "$a = 3; $b = \"s\"; $c = [1, 2]; $i = 0;\n" + rapid.SampledFrom(seedPrograms).Draw(rt, "runprog")
+	if rapid.IntRange(0, 3).Draw(rt, "seedOrGen") == 0 {
+		return "$a = 3; $b = \"s\"; $c = [1, 2]; $i = 0;\n" + rapid.SampledFrom(seedPrograms).Draw(rt, "runprog")
+	}
+	cfg := pgen.DefaultCfg()
+	cfg.MaxStmts = 6
+	cfg.MaxDepth = 3
+	cfg.Exceptions = rapid.Bool().Draw(rt, "exc")
+	p := pgen.Gen(rt, cfg)
+	return p.Print(pgen.PrintOpts{NoHeader: true})
 }
